@@ -467,8 +467,9 @@ def check_vector(vec, seed, full):
             if isinstance(a, Exception) or not is_int(a) or not is_int(b):
                 continue
             a, b, fx = int(a), int(b), vec['compl']
-            both = [i for i in range(n) if a & b & fx >> i & 1]
-            none = [i for i in range(n) if ~(a | b) & fx >> i & 1]
+            # (>> binds tighter than &: the masks are combined first)
+            both = [i for i in range(n) if (a & b & fx) >> i & 1]
+            none = [i for i in range(n) if (~(a | b) & fx) >> i & 1]
             # named deviation: a text cell that reads as the number x is
             # selected by "=x" (as the number) and by "<>x" (as a text)
             x = crits[0][1]
